@@ -4,12 +4,16 @@ from oracledefs import replfault
 REPLFAULT = Comp('replfault', n_quick=9, n_thorough=27, oracle=replfault.replfault_oracle, nontrivial=replfault.replfault_nontrivial,
                  stats=replfault.replfault_stats, differential=False, chunk_min=10 ** 6, timeout=1500, shrink=False)
 
+from oracledefs import replstream
+REPLSTREAM = Comp('replstream', n_quick=16, n_thorough=160, oracle=replstream.replstream_oracle, nontrivial=replstream.replstream_nontrivial,
+                  stats=replstream.replstream_stats, differential=False, chunk_min=4, timeout=900, shrink=False)
+
 reg(Prop('C15', 'Kevo.Props.C15',
          facts=['facts:repl.wal.*', 'facts:repl.broadcast.*', 'facts:repl.sendToReplica.*', 'facts:repl.sendUpdated.*', 'facts:repl.getEntries.*', 'facts:repl.register.lock', 'facts:repl.sendInitial.lockOrder', 'facts:repl.resend.lockOrder', 'facts:repl.updateSessionAck.lockOrder', 'facts:repl.status.lockOrder',
                 'facts:repl.OnWALEntryWritten.go', 'facts:repl.push.order', 'facts:repl.pushBatch.order', 'facts:repl.storage.*',
                 'facts:repl.checkSessions.*', 'facts:repl.DefaultHeartbeatConfig.*', 'facts:repl.GetReplicaInfo.filter',
                 'facts:repl.StreamWAL.unregister', 'facts:repl.ackUpdate.cond', 'facts:wal.Append.order', 'facts:wal.AppendBatch.order'],
-         components=[REPLFAULT],
+         components=[REPLFAULT, REPLSTREAM],
          fact_tags=['repl', 'replication'],
          rule='component replfault (implementation only, one child process per scenario): real primary engine + '
               'replication.Manager(primary) with heartbeat 300 ms / 1.2 s, a healthy real replica, and raw gRPC clients of the '
@@ -17,9 +21,17 @@ reg(Prop('C15', 'Kevo.Props.C15',
               '(closes the TCP socket with linger 0 after n messages), slow (sleeps between reads), ack (control); class sustained: >= 50 000 '
               'puts next to a healthy replica AND a never-acknowledging reader must complete (D38 repaired). Every '
               'Put / Get / Commit on the primary runs under a 5 s watchdog; the reported topology (Manager.GetNodeInfo) is sampled; '
-              'the healthy replica must still converge and be listed. Verdict ok / blocked op=... / notdropped / failed.',
-         trusted_base=['the Go scenario harness (comp_repl.go): watchdog, fault clients, topology sampling'],
+              'the healthy replica must still converge and be listed. Verdict ok / blocked op=... / notdropped / failed.'
+              ' Plus component replstream (implementation only, in process): the real Primary observing a real engine\'s log, '
+              'with replication streams attached through fake stream objects (StreamWAL called directly) whose Send fails, or hangs '
+              'for a bounded time and then fails, while the stream context is still alive, and with two streams from one listener '
+              'address - faults a loopback gRPC connection cannot produce. Classes: pollfail (a lagging reader starts failing on the '
+              'polling sender, then client writes arrive), hbfail (a heartbeat Send hangs then fails while writes are broadcast to the '
+              'same session), sameaddr (a peer reconnects from the same address, the old stream is torn down afterwards), mixed. '
+              'Oracle: every Put / Commit / Get completes (5 s watchdog) and succeeds; a stream whose context was cancelled leaves the '
+              'topology; the healthy stream is sent the whole log, stays listed, its acknowledgements are accepted.',
+         trusted_base=['the Go scenario harness (comp_repl.go, comp_replstream.go): watchdog, fault clients, fake streams, topology sampling'],
          assumptions=['"normal time" is not expressible: the model distinguishes enabled / never enabled, the scenarios use a 5 s watchdog',
                       'flow control is a parameter (window) in the model; the measured window on loopback is ~180 KB of payload',
-                      'a cut or stalled TCP connection below gRPC (no FIN/RST) is not exhibited: only application-level stalls and '
-                      'abrupt socket closes']))
+                      'a cut or stalled TCP connection below gRPC (no FIN/RST) is exhibited only in process (component replstream: failing / '
+                      'hanging Send with a live stream context), not over a real socket']))
